@@ -49,7 +49,8 @@ MANIFEST = dict(
          'accept/reject of genuine, modified and wrong-length signatures, messages, contexts and keys identical; the model also accepts the '
          'reference implementation\'s known-answer signatures. Keys CREATED by Tink (keyset.Manager.AddNewKeyFromParameters, seeds and id on the tape) are '
          'checked for every set and both variants: PK.root = root of the NAMED set for the seeds (internal deterministic key generation and, for the f sets, the model), '
-         'sizes per Table 2, and the generated f-set keys sign and verify through the Tink API and the internal Verify. The key's OWN verifier (slhdsa.NewVerifier, without the keyset wrapper that pre-selects by prefix) is run on the whole prefix family for every parameter set (tk cases: bare FIPS 205 signature on a TINK key, other id, CRUNCHY start byte, flipped prefix bit, doubled prefix, prefixed signature on a NO_PREFIX key) against the model's tink_verify.',
+         'sizes per Table 2, and the generated f-set keys sign and verify through the Tink API and the internal Verify.'
+         ' The key\'s OWN verifier (slhdsa.NewVerifier, without the keyset wrapper that pre-selects by prefix) is run on the whole prefix family for every parameter set (tk cases: bare FIPS 205 signature on a TINK key, other id, CRUNCHY start byte, flipped prefix bit, doubled prefix, prefixed signature on a NO_PREFIX key) against the model\'s tink_verify.',
     note='Trusted: Coq kernel, ExtrOcamlBasic extraction + OCaml glue, the Go harness and the stdlib oracle (Go crypto/sha256, sha512, sha3, hmac); '
          'the reading of the FIPS 205 text behind model/SlhdsaFips.v. '
          'The implementation model is hand-written (tie = correspondence on the explored inputs; the parameter tables are regenerated by the translator and tied to Table 2). '
